@@ -3,9 +3,9 @@
     tools/xpath/dump2coq.py), and the witnesses of what the full statement would claim in excess. *)
 From Coq Require Import List NArith Bool.
 From XmlRs Require Import Base.CPred Spec.XPathSyntax.
-From XmlRs Require Import Model.XPathAst Model.XDoc Model.XPathEval.
+From XmlRs Require Import Model.XPathAst Model.XDoc Model.XDocCheck Model.XPathEval.
 From XmlRs Require Import Proofs.XPathParseMain Proofs.XPathCanon Proofs.XPathDocCheck
-  Proofs.XPathAbsInv Proofs.XPathSpellingLight Proofs.XPathSpellingMain.
+  Proofs.XPathAbsInv Proofs.XPathSpellingOrd Proofs.XPathSpellingLight Proofs.XPathSpellingMain.
 Import ListNotations.
 Local Open Scope N_scope.
 
@@ -170,4 +170,51 @@ Proof.
 Qed.
 
 Example ex_light_value : query_model c08_doc [] (spell ex_l1 (sp_of ex_l1)) = QError (XErrNotFoundVariable [118]).
+Proof. vm_compute. reflexivity. Qed.
+
+(** ** an instance of [spelling_irrelevant_ord]: DTD-default attributes (order key 0, finding D19) and the
+    namespace axis under [//] *)
+(* <!DOCTYPE r [<!ATTLIST a d CDATA "v">]><r><a><a/></a></r> *)
+Definition c08_dtd_doc : xdoc :=
+  [ mk_xnode KDocument 1 1 None [1;2] [] (Some []) XNameNone DataComputed;
+    mk_xnode KDocumentType 2 2 (Some 0) [] [] (Some []) XNameNone (DataStr []);
+    mk_xnode KElement 5 4 (Some 0) [4] [] (Some [3]) (XName [114] (Some [120;109;108;110;115]) (None)) DataComputed;
+    mk_xnode KNamespace 0 0 None [] [] (Some []) (XName [120;109;108] (None) (None)) (DataStr [104;116;116;112;58;47;47;119;119;119;46;119;51;46;111;114;103;47;88;77;76;47;49;57;57;56;47;110;97;109;101;115;112;97;99;101]);
+    mk_xnode KElement 6 5 (Some 2) [7] [6] (Some [5]) (XName [97] (Some [120;109;108;110;115]) (None)) DataComputed;
+    mk_xnode KNamespace 0 0 None [] [] (Some []) (XName [120;109;108] (None) (None)) (DataStr [104;116;116;112;58;47;47;119;119;119;46;119;51;46;111;114;103;47;88;77;76;47;49;57;57;56;47;110;97;109;101;115;112;97;99;101]);
+    mk_xnode KAttribute 0 0 (Some 4) [] [] (Some []) (XName [100] (Some [120;109;108;110;115]) (None)) (DataStr [118]);
+    mk_xnode KElement 7 6 (Some 4) [] [9] (Some [8]) (XName [97] (Some [120;109;108;110;115]) (None)) DataComputed;
+    mk_xnode KNamespace 0 0 None [] [] (Some []) (XName [120;109;108] (None) (None)) (DataStr [104;116;116;112;58;47;47;119;119;119;46;119;51;46;111;114;103;47;88;77;76;47;49;57;57;56;47;110;97;109;101;115;112;97;99;101]);
+    mk_xnode KAttribute 0 0 (Some 7) [] [] (Some []) (XName [100] (Some [120;109;108;110;115]) (None)) (DataStr [118]) ].
+
+Lemma c08_dtd_doc_ord : DocOrd c08_dtd_doc /\ doc_inv_b c08_dtd_doc = false.
+Proof. split; [apply doc_ord_b_sound; vm_compute; reflexivity|vm_compute; reflexivity]. Qed.
+
+(** [//a//@d | //a//namespace::*] and the same with [/descendant-or-self::node()/] and the named axes *)
+Definition ex_o1 : xexpr :=
+  XBin BUnion
+    (XPath (SAbs SDSlash) (XStep AOmit (nm 97) []) [(SDSlash, XStep AAt (nm 100) [])])
+    (XPath (SAbs SDSlash) (XStep AOmit (nm 97) []) [(SDSlash, XStep (AFull XNamespace) TAny [])]).
+Definition ex_o2 : xexpr :=
+  XBin BUnion
+    (XPath (SAbs SSlash) dos_step [(SSlash, XStep (AFull XChild) (nm 97) []); (SSlash, dos_step); (SSlash, XStep (AFull XAttribute) (nm 100) [])])
+    (XPath (SAbs SSlash) dos_step [(SSlash, XStep (AFull XChild) (nm 97) []); (SSlash, dos_step); (SSlash, XStep (AFull XNamespace) TAny [])]).
+
+Example ex_ord_hypotheses :
+  ok_spelling ex_o1 (sp_of ex_o1) /\ ok_spelling ex_o1 (sp_of ex_o2) /\
+  no_fname_case ex_o1 = true /\ no_fname_case ex_o2 = true /\ xnons ex_o1 = false.
+Proof.
+  split; [repeat split; vm_compute; reflexivity|]. split; [repeat split; vm_compute; reflexivity|].
+  repeat split; vm_compute; reflexivity.
+Qed.
+
+Example ex_ord_same : forall v,
+  query_model c08_dtd_doc [] (spell ex_o1 (sp_of ex_o1)) = QValue v <-> query_model c08_dtd_doc [] (spell ex_o1 (sp_of ex_o2)) = QValue v.
+Proof.
+  destruct ex_ord_hypotheses as (H1 & H2 & N1 & N2 & _).
+  exact (spelling_irrelevant_ord_proof c08_dtd_doc [] ex_o1 (sp_of ex_o1) (sp_of ex_o2) H1 H2 N1 N2 (proj1 c08_dtd_doc_ord) eq_refl).
+Qed.
+
+(** the value: the first of the nodes with key 0 (D19 conflates them) *)
+Example ex_ord_value : query_model c08_dtd_doc [] (spell ex_o1 (sp_of ex_o1)) = QValue (XNodes [6]).
 Proof. vm_compute. reflexivity. Qed.
